@@ -1341,6 +1341,11 @@ class C05(Check):
             out.count('groups_spanning_chunks', span)
             tot = sum(len(cell) for row in c.chunkList for cell in row)
             out.count('replicated_points', tot - len(ra))
+            # a position for which chunks.get() names no chunk (slice -1 / nDec) is not this function's business: the
+            # verdict on its group comes from the oracle; here it is only counted
+            placed = [h for h in home if 0 <= h[1] < c.nDec and h[0] >= 0]
+            out.count('positions_without_home_chunk', len(home) - len(placed))
+            home = placed
             if any(c.nRa[h[1]] == 1 for h in home):
                 out.count('polar_slice_cases')
             if c.raOffset != 0.0 or any(c.raBounds[h[1]][0] == 0.0 and c.raBounds[h[1]][-1] == 360.0 for h in home):
